@@ -25,7 +25,7 @@ Sigma   annotations = categories x array types {np.ndarray, Duck20, Any, Union,
         gc.collect() (weak references say whether it died), build + dump + keep
         OTHER annotations until one lives at the dead one's address (3..64 of
         the following specs of the batch), then load the old blob.  Routes:
-        pickle 5 + cloudpickle (quick), all protocols + both cloudpickle
+        pickle 5 + cloudpickle (quick), pickle 0 and 5 + both cloudpickle
         modes (thorough).  Not collectable and therefore outside this dimension
         (measured, see coverage.outlive): annotations used as the array type of
         another annotation or as a PyTree leaf type (lru_cache keys), array
@@ -151,7 +151,7 @@ N_PLAIN = len(CONTEXTS) * (len(ND_DTYPES) + len(DUCK_DTYPES)) * len(SHAPES)
 OUTLIVE_CHURN_MIN = 3  # other annotations built + dumped (and kept alive) between the death of an annotation and the load of its blobs: at least
 OUTLIVE_CHURN_CAP = 64  # ... and at most (stops once one of them lives at the dead annotation's address)
 OUTLIVE_ROUTES_QUICK = ["pickle5", "cloudpickle"]
-OUTLIVE_ROUTES_THOROUGH = [f"pickle{p}" for p in PICKLE_PROTOCOLS] + ["cloudpickle", "cloudpickle-ref"]
+OUTLIVE_ROUTES_THOROUGH = ["pickle0", "pickle5", "cloudpickle", "cloudpickle-ref"]
 
 # ---- family `fault`: loads aborted at every possible point, then ONE witness operation
 # victims: every axis token "a" is renamed per variant (a fresh name = a cold dim-string cache)
